@@ -24,7 +24,7 @@ for d in sorted(glob.glob("/verif/seeded/C*-*")):
         if s:
             sig = s[0]
             break
-    rows.append((name, "yes" if m.get("confirmed") else "NO", ", ".join(caught) if caught else "MISSED (" + ",".join(det) + ")", sig, m.get("history", ""), notes))
+    rows.append((name, "yes" if m.get("confirmed") else ("yes at " + m["confirmed_at_earlier_head"] if m.get("confirmed_at_earlier_head") else "NO"), ", ".join(caught) if caught else "MISSED (" + ",".join(det) + ")", sig, "; ".join(m["history"]) if isinstance(m.get("history"), list) else m.get("history", ""), notes))
 with open("/verif/seeded/SUMMARY.md", "w") as f:
     f.write("# Seeded property-breaking changes (independent sub-agents) and which check catches them\n\n")
     f.write("confirmed = demo passes without the change, fails with it, repo suite still 79 passed. Detection = quick tier of the named check(s) run against the patched scratch worktree.\n\n")
